@@ -96,6 +96,15 @@ func sessionIter(t *tape.Tape, prop string) *core.RunResult {
 		_, hard = tc.Limits(b.Turn())
 	}
 	res.Tracef("%s limit=%d table=%v timecontrol=%v on %q", cfg, limit, useTT, opt.TimeControl, g.FEN())
+	if useTT && t.Chance(1, 2) {
+		// the table already knows this root from an earlier, deeper or shallower search of the same game (a
+		// repeated go, a position reached along an earlier principal variation): the analysis still starts
+		// at depth 1 and still ends at its own limit
+		dPre := t.Range(1, cfg.MaxDepth())
+		direct.Search(sb.BudgetCtx(400000), &search.Context{TT: tt}, b.Fork(), dPre)
+		res.Tracef("table pre-filled by a depth-%d search of the same root", dPre)
+		res.Probe("table-knows-the-root-already")
+	}
 
 	fork := b.Fork()
 	snapF := sb.Snap(fork)
@@ -303,7 +312,7 @@ func sessionIter(t *tape.Tape, prop string) *core.RunResult {
 					return fail("halt-returned-shallower-result", "Halt() returned depth %d although depth %d had been reported before the halt was requested", hl.pv.Depth, hl.maxBefore)
 				}
 				if hl.pv.Depth >= 1 && !useTT {
-					_, sc, mv, err := direct.Search(sb.BudgetCtx(3000000), &search.Context{TT: search.NoTranspositionTable{}}, b.Fork(), hl.pv.Depth)
+					_, sc, mv, err := direct.Search(sb.BudgetCtx(400000), &search.Context{TT: search.NoTranspositionTable{}}, b.Fork(), hl.pv.Depth)
 					if err == nil && (sc != hl.pv.Score || !sameMoves(mv, hl.pv.Moves)) {
 						return fail("halt-returned-incomplete-iteration", "Halt() returned depth=%d score=%v pv=%v; a direct depth-%d search gives %v %v", hl.pv.Depth, hl.pv.Score, hl.pv.Moves, hl.pv.Depth, sc, mv)
 					}
@@ -374,7 +383,7 @@ func sessionIter(t *tape.Tape, prop string) *core.RunResult {
 			return fail(kind, "the analysis reported depth=%d score=%v pv=%v (halt requested before it was read: %v): not the result of a completed iteration", pv.Depth, pv.Score, pv.Moves, gotAfterHalt[i])
 		}
 		if !useTT {
-			_, sc, mv, err := direct.Search(sb.BudgetCtx(3000000), &search.Context{TT: search.NoTranspositionTable{}}, b.Fork(), pv.Depth)
+			_, sc, mv, err := direct.Search(sb.BudgetCtx(400000), &search.Context{TT: search.NoTranspositionTable{}}, b.Fork(), pv.Depth)
 			if err == nil && (sc != pv.Score || !sameMoves(mv, pv.Moves)) {
 				if prop == "C12" && gotAfterHalt[i] {
 					return fail("halted-search-reports-result", "after the halt was requested the analysis reported depth=%d score=%v pv=%v, which is not the result of a completed depth-%d search (%v %v): a halted search must report that it was halted, not a score", pv.Depth, pv.Score, pv.Moves, pv.Depth, sc, mv)
